@@ -523,6 +523,174 @@ Definition c20_show_gcl (c : obj * list (text * text) * list (text * text)) :=
   let cleaned := clean_record_model (digest_of dg) false o in (cleaned, dict_repr cleaned ++ T " *").
 
 (* ------------------------------------------------------------------ *)
+(* Payloads handed over as Python OBJECTS (LogFormatter.clean_record / GoogleLogger.write_event
+   called with a dict).  A heap of containers addressed by index; a value is an owned JSON
+   tree or a REFERENCE to a container, so one dict/list object can be reachable from several
+   places, and the caller can mutate a container in place between two calls. *)
+Inductive hval := HLeaf (j : json) | HRef (a : nat).
+Inductive hcell := HDict (kvs : list (text * hval)) | HList (items : list hval).
+Definition heap := list hcell.
+
+(* the VALUE of an object: the tree obtained by following the references.  [f] is fuel: every
+   dereference costs one; S (length h) is enough for every acyclic heap (the harness only
+   builds acyclic ones). A dangling reference / exhausted fuel reads as None. *)
+Fixpoint unfold (f : nat) (h : heap) (v : hval) {struct f} : json :=
+  match v with
+  | HLeaf j => j
+  | HRef a =>
+      match f with
+      | O => JNull
+      | S f' =>
+          match nth_error h a with
+          | Some (HDict kvs) => JObj (map (fun kv => (fst kv, unfold f' h (snd kv))) kvs)
+          | Some (HList l) => JArr (map (unfold f' h) l)
+          | None => JNull
+          end
+      end
+  end.
+
+(* isinstance(item, (dict, list)) on a value reached with fuel f *)
+Definition hv_container (f : nat) (h : heap) (v : hval) : bool :=
+  match v with
+  | HLeaf j => is_container j
+  | HRef a => match f with
+              | O => false
+              | S _ => match nth_error h a with Some _ => true | None => false end
+              end
+  end.
+
+Section HeapClean.
+Variable sens : text -> bool.
+Variable str_of : json -> text.
+Variable repr_of : json -> text.
+Variable digest : text -> text.
+Variable colq : text -> text.
+
+(* clean_record / _clean_items walking the OBJECTS: every reference met is walked again,
+   whether or not the container behind it was met before; str(value) of an object is str of
+   its value. *)
+Fixpoint clean_href (f : nat) (h : heap) (m : bool) (v : hval) {struct f} : cval :=
+  match v with
+  | HLeaf j => clean_at sens str_of repr_of digest colq m j
+  | HRef a =>
+      match f with
+      | O => clean_at sens str_of repr_of digest colq m JNull
+      | S f' =>
+          match nth_error h a with
+          | Some (HDict kvs) =>
+              CObj (map (fun kv => (fst kv, if sens (fst kv)
+                                            then CRedacted (digest (str_of (unfold f' h (snd kv))))
+                                            else clean_href f' h false (snd kv))) kvs)
+          | Some (HList l) =>
+              if m || existsb (hv_container f' h) l
+              then CArr (map (clean_href f' h true) l)
+              else CLeaf (colq (str_of (JArr (map (unfold f' h) l))))
+          | None => clean_at sens str_of repr_of digest colq m JNull
+          end
+      end
+  end.
+End HeapClean.
+
+(* d[k] = v : the position of an existing key is kept, a new key goes last *)
+Fixpoint set_member (k : text) (v : hval) (kvs : list (text * hval)) : list (text * hval) :=
+  match kvs with
+  | [] => [(k, v)]
+  | (k', x) :: r => if teqb k k' then (k', v) :: r else (k', x) :: set_member k v r
+  end.
+Definition del_member (k : text) (kvs : list (text * hval)) : list (text * hval) :=
+  filter (fun kv => negb (teqb k (fst kv))) kvs.
+
+(* what a caller does in one session (one LogFormatter, one process) *)
+Inductive sop :=
+| OClean (root : nat) (colorize : bool)     (* formatter.clean_record(object root, colorize) *)
+| OGcl (root : nat)                         (* GoogleLogger.write_event(object root) *)
+| OSet (a : nat) (k : text) (v : hval)      (* object a [k] = v            (in place) *)
+| ODel (a : nat) (k : text)                 (* del object a [k]            (in place) *)
+| OAppend (a : nat) (v : hval)              (* object a .append(v)         (in place) *)
+| OSetItem (a : nat) (i : nat) (v : hval)   (* object a [i] = v            (in place) *)
+| ONew (c : hcell)                          (* a new container, address = number of cells so far *)
+| OTouch (k : nat).                         (* the caller empties the dict that call number k returned *)
+
+Inductive sout :=
+| SNone                                               (* not a call *)
+| SItems (items : list (text * text))                  (* items of the returned dict *)
+| SBad.                                               (* the root is not a dict *)
+
+(* calls leave every object as it is; the returned dict is new, so editing it changes nothing *)
+Definition heap_step (h : heap) (op : sop) : heap :=
+  match op with
+  | OClean _ _ | OGcl _ | OTouch _ => h
+  | OSet a k v => replace_nth a (fun c => match c with HDict kvs => HDict (set_member k v kvs) | _ => c end) h
+  | ODel a k => replace_nth a (fun c => match c with HDict kvs => HDict (del_member k kvs) | _ => c end) h
+  | OAppend a v => replace_nth a (fun c => match c with HList l => HList (l ++ [v]) | _ => c end) h
+  | OSetItem a i v => replace_nth a (fun c => match c with HList l => HList (replace_nth i (fun _ => v) l) | _ => c end) h
+  | ONew c => h ++ [c]
+  end.
+
+Definition call_items (digest : text -> text) (h : heap) (root : nat) (colorize : bool) : sout :=
+  let cl := colours_of colorize in
+  let f := S (List.length h) in
+  match nth_error h root with
+  | Some (HDict _) =>
+      match clean_href sensitive_code py_str py_repr digest (colour_quotes cl) f h false (HRef root) with
+      | CObj kvs => SItems (render_obj cl kvs)
+      | _ => SBad
+      end
+  | _ => SBad
+  end.
+
+Definition call_out (digest : text -> text) (h : heap) (op : sop) : sout :=
+  match op with
+  | OClean root colorize => call_items digest h root colorize
+  | OGcl root => call_items digest h root false
+  | _ => SNone
+  end.
+
+Definition sess_step (digest : text -> text) (h : heap) (op : sop) : heap * sout :=
+  (heap_step h op, call_out digest h op).
+
+Fixpoint sess_run (digest : text -> text) (h : heap) (ops : list sop) : list sout :=
+  match ops with
+  | [] => []
+  | op :: r => snd (sess_step digest h op) :: sess_run digest (fst (sess_step digest h op)) r
+  end.
+
+(* what the harness saw for each operation *)
+Inductive sobs :=
+| BNone
+| BItems (items : list (text * text)) (same : bool)      (* clean_record: returned items; repr(payload) after the call = before it *)
+| BFields (fields : list (text * text)) (same : bool).   (* write_event: string fields of the printed line; payload unchanged *)
+
+Definition gcl_fields_ok (cleaned fields : list (text * text)) : bool :=
+  forallb (fun kv => match lookup (fst kv) fields with Some v => teqb v (snd kv) | None => false end) cleaned &&
+  (existsb (fun kv => teqb (fst kv) (T "message")) cleaned ||
+   match lookup (T "message") fields with
+   | Some m => teqb m (dict_repr cleaned ++ T " *")
+   | None => false
+   end).
+
+Definition sout_ok (op : sop) (out : sout) (ob : sobs) : bool :=
+  match op, out, ob with
+  | OClean _ _, SItems it, BItems it' same => pairs_eqb it it' && same     (* heap_step: a call changes no object *)
+  | OGcl _, SItems it, BFields fields same => gcl_fields_ok it fields && same
+  | (OSet _ _ _ | ODel _ _ | OAppend _ _ | OSetItem _ _ _ | ONew _ | OTouch _), SNone, BNone => true
+  | _, _, _ => false
+  end.
+
+Fixpoint souts_ok (ops : list sop) (outs : list sout) (obs : list sobs) : bool :=
+  match ops, outs, obs with
+  | [], [], [] => true
+  | op :: ops', o :: outs', b :: obs' => sout_ok op o b && souts_ok ops' outs' obs'
+  | _, _, _ => false
+  end.
+
+(* stream "sess": (heap, operations, digest table, observations) *)
+Definition c20_check_sess (c : heap * list sop * list (text * text) * list sobs) : bool :=
+  let '(h, ops, dg, obs) := c in souts_ok ops (sess_run (digest_of dg) h ops) obs.
+Definition c20_show_sess (c : heap * list sop * list (text * text) * list sobs) : list sout :=
+  let '(h, ops, dg, obs) := c in sess_run (digest_of dg) h ops.
+
+(* ------------------------------------------------------------------ *)
 (* Decoder for the generated case files.  A case is ONE string literal (long list
    literals are what makes coqc slow): an s-expression whose atoms are 'text' with
    printable ASCII standing for itself and any other code point written \<hex>; *)
@@ -610,4 +778,55 @@ Definition c20_dec_gcl (s : string) : obj * list (text * text) * list (text * te
   match sx_parse s with
   | [o; dg; fields] => (sx_obj o, sx_pairs dg, sx_pairs fields)
   | _ => ([(T "<undecodable case>", JNull)], [], [])
+  end.
+
+(* sessions: a value is ('r' 'index') = reference, or a JSON tree; a cell is ('d' ('key' value)...) or ('l' value...) *)
+Definition sx_idx (s : sx) : nat := N.to_nat (dec_nat (sx_text s) 0).
+Definition sx_hval (s : sx) : hval :=
+  match s with
+  | SL (SA [114] :: a :: []) => HRef (sx_idx a)
+  | _ => HLeaf (sx_json s)
+  end.
+Definition sx_hcell (s : sx) : hcell :=
+  match s with
+  | SL (SA [100] :: rest) =>
+      HDict (map (fun m => match m with SL (SA k :: v :: []) => (k, sx_hval v) | _ => (T "<undecodable case>", HLeaf JNull) end) rest)
+  | SL (SA [108] :: rest) => HList (map sx_hval rest)
+  | _ => HDict [(T "<undecodable case>", HLeaf JNull)]
+  end.
+Definition sx_heap (s : sx) : heap := match s with SL l => map sx_hcell l | SA _ => [] end.
+Definition sx_sop (s : sx) : option sop :=
+  match s with
+  | SL (SA [67] :: r :: c :: []) => Some (OClean (sx_idx r) (sx_bool c))
+  | SL (SA [71] :: r :: []) => Some (OGcl (sx_idx r))
+  | SL (SA [83] :: a :: SA k :: v :: []) => Some (OSet (sx_idx a) k (sx_hval v))
+  | SL (SA [68] :: a :: SA k :: []) => Some (ODel (sx_idx a) k)
+  | SL (SA [65] :: a :: v :: []) => Some (OAppend (sx_idx a) (sx_hval v))
+  | SL (SA [73] :: a :: i :: v :: []) => Some (OSetItem (sx_idx a) (sx_idx i) (sx_hval v))
+  | SL (SA [78] :: c :: []) => Some (ONew (sx_hcell c))
+  | SL (SA [88] :: k :: []) => Some (OTouch (sx_idx k))
+  | _ => None
+  end.
+Fixpoint all_some_list {A} (l : list (option A)) : option (list A) :=
+  match l with
+  | [] => Some []
+  | Some x :: r => option_map (cons x) (all_some_list r)
+  | None :: _ => None
+  end.
+Definition sx_sobs (s : sx) : sobs :=
+  match s with
+  | SL [] => BNone
+  | SL (SA [105] :: items :: same :: []) => BItems (sx_pairs items) (sx_bool same)
+  | SL (SA [103] :: fields :: same :: []) => BFields (sx_pairs fields) (sx_bool same)
+  | _ => BItems [(T "<undecodable case>", [])] false
+  end.
+Definition sx_list {A} (f : sx -> A) (s : sx) : list A := match s with SL l => map f l | SA _ => [] end.
+Definition c20_dec_sess (s : string) : heap * list sop * list (text * text) * list sobs :=
+  match sx_parse s with
+  | [h; ops; dg; obs] =>
+      match all_some_list (sx_list sx_sop ops) with
+      | Some l => (sx_heap h, l, sx_pairs dg, sx_list sx_sobs obs)
+      | None => ([], [], [], [BNone])           (* undecodable operation: the check fails *)
+      end
+  | _ => ([], [], [], [BNone])
   end.
